@@ -305,7 +305,7 @@ Qed.
 Lemma step_ctrans s o : Inv s -> Strict s -> wf_op o ->
   forall id, ctrans (st_height s) (st_height (step s o)) (get id (st_contracts s)) (get id (st_contracts (step s o))).
 Proof.
-  intros I S W id. unfold step. destruct o as [m|who id0 secret|dts]; simpl.
+  intros I S W id. unfold step. destruct o as [m|who id0 secret|dts|gw gP]; simpl.
   - destruct (create s m) as [s'|] eqn:Hc; [|constructor].
     destruct (create_open_rel s m s' I W Hc) as (dr & R).
     rewrite (or_contracts _ _ _ _ R), get_set. destruct (eq_dec id (id_of m)) as [->|Hne]; [|constructor].
@@ -319,6 +319,7 @@ Proof.
     apply andb_true_iff in Hb. destruct Hb as [Ho He]. apply Z.leb_le in He. unfold openb in Ho.
     destruct (c_state c) eqn:Hst; try discriminate. pose proof (S _ _ Hg Hst).
     apply ct_close; [exact Hst|discriminate|lia].
+  - destruct W.
 Qed.
 
 Lemma ctrans_trans_ok h0 h1 oc oc' : ctrans h0 h1 oc oc' ->
@@ -681,7 +682,7 @@ Proof.
   assert (Hrej : step_ok s (to_op k c) = false -> same_view po o = true).
   { intros Hr. rewrite (rejected_changes_nothing _ _ Hr) in V'. exact (same_view_Vw k nd s _ _ po o V V'). }
   unfold p03. rewrite Hmv, Hsm.
-  destruct c as [idx m|who idx secret|dts|n dt].
+  destruct c as [idx m|who idx secret|dts|n dt|gw gP].
   - (* create *)
     rewrite (vw_code _ _ _ _ _ V'). cbn [to_op] in *. destruct (step_ok s (Create m)) eqn:Hok; cbn [Z.eqb negb].
     2:{ rewrite (Hrej eq_refl). reflexivity. }
@@ -758,6 +759,7 @@ Proof.
   - cbv zeta. cbn [to_op step_ok exec] in V'.
     match goal with |- first_nonzero [_; (if ?b then _ else _); _] = 0 => replace b with true; [reflexivity|symmetry] end.
     exact (adv_due_live k nd s (repeat dt (Z.to_nat n)) po o code0 I S V V').
+  - destruct W.
 Qed.
 
 (** *** the C04 monitor on one model state *)
@@ -1020,7 +1022,7 @@ Lemma msg_win s o : Inv s -> Strict s -> wf_op o -> (forall dts, o <> Adv dts) -
   /\ forall d, sup_of (st_win (step s o)) d
               = sup_of (st_win s) d + (wsum (wci d) (st_contracts (step s o)) - wsum (wci d) (st_contracts s)).
 Proof.
-  intros I S W Hna. unfold step. destruct o as [m|who id secret|dts]; [| |exfalso; exact (Hna dts eq_refl)]; cbn [exec].
+  intros I S W Hna. unfold step. destruct o as [m|who id secret|dts|gw gP]; [| |exfalso; exact (Hna dts eq_refl)|destruct W]; cbn [exec].
   - destruct (create s m) as [s'|] eqn:Hc; [|split; [apply Quiet_refl|intros; lia]].
     destruct (create_quiet _ _ _ Hc) as [Q Wn]. split; [exact Q|]. intros d.
     destruct (create_open_rel s m s' I W Hc) as (dr & R).
@@ -1236,7 +1238,7 @@ Proof.
   constructor; auto; [|rewrite HP; exact T6].
   intros id c' Hg. destruct (get id (st_contracts s)) as [c0|] eqn:Hg0; [exact (T3 _ _ Hg0)|].
   destruct (created_open_lemma s _ id c' I S W Hg0 Hg) as (_ & _ & _ & m & Eo & ->).
-  destruct c as [idx m'| | |]; cbn [to_op] in Eo; try discriminate. inversion Eo; subst m'.
+  destruct c as [idx m'| | | |]; cbn [to_op] in Eo; try discriminate. inversion Eo; subst m'.
   unfold op_wf in OW. apply (proj1 (eqb_true_iff _ _)) in OW. destruct (nthZ_Some _ _ _ OW) as [_ Hn].
   exact (nth_error_In _ _ Hn).
 Qed.
@@ -1255,11 +1257,12 @@ Fixpoint trace_ok (k : case) (nd : nat) (s : state) (po : obs) (steps : list (co
 Lemma check_from_pass k nd : forall steps s po ws i code0,
   Inv s -> Strict s -> Tbl k s -> Vw k nd s code0 po -> WsRel k s ws -> PInv k s ->
   Forall (fun cd : cop * dobs => wf_op (to_op k (fst cd))) steps -> trace_ok k nd s po steps ->
-  check_from k s po ws steps i (mkV (-1) (-1) 0 (-1) 0) = mkV (-1) (-1) 0 (-1) 0.
+  check_from k true s po ws steps i (mkV (-1) (-1) 0 (-1) 0) = mkV (-1) (-1) 0 (-1) 0.
 Proof.
   induction steps as [|[c d] rest IH]; intros s po ws i code0 I S T V WR PV WF TR; [reflexivity|].
   inversion WF as [|? ? W WF']; subst. cbn [fst] in W. destruct TR as (OW & V' & TR').
-  cbn [check_from]. set (o := undiff po d) in *. set (s' := step s (to_op k c)) in *.
+  assert (Hns : is_setparams c = false) by (destruct c; try reflexivity; destruct W).
+  cbn [check_from]. rewrite Hns. cbn [andb negb]. set (o := undiff po d) in *. set (s' := step s (to_op k c)) in *.
   destruct (step_inv s _ I S W) as (I' & S' & HP').
   pose proof (tbl_step k s c I S W OW T) as T'. fold s' in T', I', S', HP'.
   pose proof (Vw_corr _ _ _ _ _ V') as Hcorr.
@@ -1270,7 +1273,7 @@ Proof.
                            | _ => wclaims k po o ws
                            end) /\ PInv k s').
   { destruct (step_facts k s (to_op k c) I S W T') as (evs & F).
-    destruct c as [idx m|who idx secret|dts|n dt]; cbn [to_op] in *.
+    destruct c as [idx m|who idx secret|dts|n dt|gw gP]; cbn [to_op] in *; [| | | |destruct W].
     - split; [apply (WsRel_msg k nd s (Create m) code0 (if step_ok s (Create m) then 0 else 1) po o ws evs F S W); [intros dts; discriminate|exact V|exact V'|exact WR]|].
       destruct (msg_win s (Create m) I S W (fun dts => ltac:(discriminate))) as ((_ & Ht & Hp) & _).
       intros Hne. unfold PrevInv, s'. rewrite Ht, Hp. exact (PV Hne).
@@ -1316,6 +1319,9 @@ Proof.
   pose proof (check_from_pass k nd (k_steps k) (case_init k) (k_obs0 k) _ 0 0 I0 S0 T0 V0 WR0 PV0 WFs TR) as HC.
   pose proof (p04_state k nd (case_init k) 0 (k_obs0 k) _ I0 T0 V0 WR0) as H04.
   pose proof (Vw_corr _ _ _ _ _ V0) as Hc0.
+  assert (H0 : hyps0_b k = true).
+  { unfold hyps_b in H. unfold hyps0_b. apply andb_true_iff in H. destruct H as [H12 H3]. rewrite H12. simpl.
+    rewrite forallb_forall in *. intros o Ho. specialize (H3 o Ho). destruct o; simpl in *; try reflexivity; try exact H3. }
   unfold check_case_C03, check_case_C04, check_all. fold (case_init k).
-  rewrite Hc0, H, H04. cbn [andb Z.eqb]. rewrite HC. split; reflexivity.
+  rewrite Hc0, H0, H04. cbn [andb Z.eqb]. rewrite HC. split; reflexivity.
 Qed.
